@@ -78,7 +78,8 @@ Example C13_oracles_ok_example :
   arc_ok a /\ oracles_ok 1 0 (fun x => if Qeq_bool x 0 then 0 else 1) a.
 Proof.
   split.
-  - unfold arc_ok, peq; cbn. repeat split; intro H; try (destruct H as [H _]); discriminate.
+  - unfold arc_ok, peq; cbn. split; [intro H; discriminate H|]. split; [intro H; discriminate H|].
+    intros [H _]; discriminate H.
   - unfold oracles_ok, sqrt_at. split; [reflexivity|]. split.
     + intro H. vm_compute in H. discriminate.
     + vm_compute. split; [discriminate | reflexivity].
